@@ -103,6 +103,8 @@ def main(have):
     for dev, binding, clsname in (("/dev/sg0", "sgio", "SCSIDevice"), ("/dev/bsg/0:0:0:0", "sgio", "SCSIDevice"), ("/dev/disk/by-id/wwn-0x5000", "sgio", "SCSIDevice"),
                                   ("/dev/", "sgio", "SCSIDevice"), ("iscsi://127.0.0.1/iqn.t/0", "iscsi", "ISCSIDevice"), ("iscsi://", "iscsi", "ISCSIDevice"),
                                   ("iscsi://Host.Example:3260/iqn.2001-04.COM.Example:Target-A/1", "iscsi", "ISCSIDevice"), ("/dev/disk/by-label/Data Disk", "sgio", "SCSIDevice"),
+                                  ("iscsi://admin%password@10.0.0.5/iqn.2001-04.com.example:t/1", "iscsi", "ISCSIDevice"), ("iscsi://backup%s3cret@h/t/0", "iscsi", "ISCSIDevice"),
+                                  ("/dev/disk/by-id/usb-Flash%20Disk_1%d-0:0", "sgio", "SCSIDevice"), ("100%", None, None), ("%s", None, None), ("tcp://%(x)s", None, None),
                                   ("/tmp/file", None, None), ("tcp://x", None, None), ("", None, None), ("/dev", None, None), ("dev/sg0", None, None),
                                   ("ISCSI://x", None, None), (" /dev/sg0", None, None)):
         del w.trace[:]
